@@ -617,6 +617,23 @@ def _run_scanpairs(desc):
             elif any(not same(got2[k], want2[k]) for k in want2):
                 k = [k for k in want2 if not same(got2[k], want2[k])][0]
                 sh.violation("pairscans:overlaps-wrong", dict(case, pair=list(k)), {"got": got2[k], "expected": sorted(want2[k].items())})
+            # a third row measured rotating BACKWARDS (zig-zag scans): its frames are stored with omega descending
+            fn3 = os.path.join(wd, "c.h5")
+            om3 = np.array([399.0, 380.0, 370.03])
+            _write_scan(fn3, [masks[trip[0]], masks[trip[2]], masks[trip[1]]], om3)
+            s3 = labelled(fn3)
+            s3.sinorow = 9
+            got3 = PR.pairscans(s1, s3)
+            want3 = {}
+            for i, j in ((0, 1), (1, 2)):            # s1 frame 0 (omega 20) <-> s3 frame 1 (380); s1 frame 1 (10) <-> s3 frame 2 (370.03)
+                if s1.nnz[i] and s3.nnz[j]:
+                    want3[(7, i, 9, j)] = oracle_overlap(frame_of(s1, i), frame_of(s3, j))
+            case3 = dict(case, second_scan_omega=om3.tolist())
+            if set(got3) != set(want3):
+                sh.violation("pairscans[second scan rotating backwards]:wrong-set-of-frame-pairs", case3, {"got": sorted(map(list, got3)), "expected": sorted(map(list, want3))})
+            elif any(not same(got3[k], want3[k]) for k in want3):
+                k = [k for k in want3 if not same(got3[k], want3[k])][0]
+                sh.violation("pairscans[second scan rotating backwards]:overlaps-wrong", dict(case3, pair=list(k)), {"got": got3[k], "expected": sorted(want3[k].items())})
             sh.evaluations += 1
             if sum(len(v) for v in want.values()) >= 2:
                 sh.nontrivial += 1
